@@ -60,7 +60,13 @@ def run_ops(h, ops):
         if op[0] == 'seek':
             h.seek(op[1])
         elif op[0] == 'read':
-            out.append(h.read(op[1]))
+            if len(out) % 2 == 1 and TT.own_readinto(h):
+                # the library's own readinto, where the tree under test has one: same bytes, another code path to the shared file
+                buf = bytearray(op[1])
+                k = h.readinto(buf)
+                out.append(bytes(buf[:k or 0]))
+            else:
+                out.append(h.read(op[1]))
         else:
             out.append(h.write(op[1]))
     return out
